@@ -49,7 +49,7 @@ def run(chk, repo):
     from .adapter_eval import adapter_values
     chk.rule("C04-T7", "every adapter used in these layouts decodes representative raw values as specified (evaluation of _decode)", 5)
     chk.attempt(adapter_values, chk, repo, L, "C04-T7", ("leader",))
-    chk.attempt(_t4_pending[0], chk, repo, L, _t4_pending[1], covered_by="adapter_values")
+    chk.attempt(_t4_pending[0], chk, repo, L, _t4_pending[1], covered_by="adapter_values", rules=("C04-T4",))
     from ..shapes_rules import link_tables
     link_tables(chk, repo, L, "C04")
     from .common_rules import parse_and_transform, to_dict_contract
